@@ -12,13 +12,6 @@ PID = 'C07'
 SHORT = 'encode'
 
 ENV = '''
-#[derive(Debug, Clone, Copy, PartialEq, Eq, Structural)]
-pub struct StatusCode { pub bits: u32 }
-impl StatusCode {
-    pub const BadRequestTooLarge: StatusCode = StatusCode { bits: 0x80B8_0000 };
-    pub const BadResponseTooLarge: StatusCode = StatusCode { bits: 0x80B9_0000 };
-    pub const BadTcpInternalError: StatusCode = StatusCode { bits: 0x8082_0000 };
-}
 pub struct SecureChannel { pub security_policy: SecurityPolicy, pub client: bool }
 impl SecureChannel {
     pub fn security_policy(&self) -> (r: SecurityPolicy) ensures r == self.security_policy { self.security_policy }
@@ -233,6 +226,7 @@ def build(manifest):
     a = Asm()
     a.add('use vstd::prelude::*;\nverus! {\nglobal size_of usize == 8;\n', 'prelude', 'env')
     a.add(norm_vis(sp.enum('SecurityPolicy')) + '\n' + norm_vis(mc.enum('MessageChunkType')) + '\n' + norm_vis(mc.enum('MessageIsFinalType')), 'types', 'env')
+    a.add(status_code_struct(manifest), 'status codes', 'env')      # every status code of the real file (D14)
     a.add('pub struct Chunker;\n' + ENV, 'env', 'env')
     a.add('impl Chunker {')
     a.add(f, 'encode', 'fn')
